@@ -15,6 +15,8 @@ CONSTANTS
   FailSets <- MCFailSets
   TrialReset = TRUE
   FinalReset = FALSE
+  CompRebases = FALSE
+  MaxUser = 0
 INVARIANT TypeOK
 INVARIANT EndStateNominal
 CHECK_DEADLOCK FALSE
